@@ -9,6 +9,7 @@ number of other goroutines' steps.
 import GoZero.C07.ProofsSFX
 import GoZero.C07.ProofsLCX
 import GoZero.C07.ProofsRM
+import GoZero.C07.ProofsRMX
 set_option linter.unusedSimpArgs false
 namespace GoZero.C07
 
@@ -889,11 +890,12 @@ example : ((RM.run (RM.init .doTake) ([(0,2)] ++ List.replicate 9 (0,0))).bind f
 /-! ### Round 5: who a blocked `GetResource` / `Take` call waits for (RM had no such statement before)
 
 Full statement (as `sf_keys_independent` for SingleFlight): a blocked caller waits only for the holder of a mutex — who
-exists and is enabled — or for the unfinished leader of a flight of its OWN key.  Proven here: the case split, that every
-goroutine inside a critical section (flight-group mutex, write lock, read lock) is enabled, and that a caller blocked in
-`Wait` waits for a published flight of its own key.  MISSING for the full statement: `s.lock = some u → (s.pc u).holdsLock`
-and `s.rw = some u → s.pc u ∈ {g7, g8}` (the converse directions of `Inv.lock` / `Inv.writer`) are not part of RM's
-invariant, so the existence of the enabled holder is not derived — hence `_partial`. -/
+exists and is enabled — or for the unfinished leader of a flight of its OWN key.  Proven (`rm_keys_independent_partial`,
+with `RM.InvL` of ProofsRMX.lean: a taken flight-group mutex / write lock has a holder inside its critical section): all
+of that for the flight-group mutex, the write lock and `Wait`.  MISSING for the full statement: when the writer at g6 is
+blocked by READERS (`nrd ≠ 0`) the readers are only counted, not identified (`nrd ≠ 0 → ∃ u at p1 / p2 / g1 / g2` needs a
+count over an unbounded set of goroutines); they are always enabled (`rm_critical_section_enabled`).  For the same
+reason there is no `rm_no_deadlock`. -/
 theorem rm_blocked_cases {s : RM.St} {t : Tid} {x : Nat} (hb : RM.step s t x = none) :
     ((s.pc t = .l0 ∨ s.pc t = .d0) ∧ s.lock ≠ none) ∨ (s.pc t = .w1 ∧ s.wg (s.reg t) ≠ 0) ∨
     ((s.pc t = .p0 ∨ s.pc t = .g0) ∧ s.rw ≠ none) ∨ (s.pc t = .g6 ∧ ¬(s.rw = none ∧ s.nrd = 0)) := by
@@ -908,16 +910,50 @@ theorem rm_critical_section_enabled (s : RM.St) (u : Tid) (y : Nat)
   · revert hu; cases hpc : s.pc u <;> simp [RM.PC.holdsLock] <;> (try split) <;> simp
   all_goals (rw [hu]; simp)
 
-theorem rm_keys_independent_partial {s : RM.St} (h : RM.Reach s) (t : Tid) (x : Nat) (hb : RM.step s t x = none)
-    (hw : s.pc t = .w1) : s.wg (s.reg t) ≠ 0 ∧ s.ekey (s.reg t) = s.key t ∧ RM.published s (s.reg t) := by
-  have hc := rm_blocked_cases hb
-  have hwt := (RM.inv_reach h).waits t (by rw [hw]; rfl)
-  refine ⟨?_, hwt.2.1, hwt.2.2⟩
-  rcases hc with hc | hc | hc | hc
-  · rcases hc.1 with h1 | h1 <;> rw [hw] at h1 <;> cases h1
-  · exact hc.2
-  · rcases hc.1 with h1 | h1 <;> rw [hw] at h1 <;> cases h1
-  · have h1 := hc.1; rw [hw] at h1; cases h1
+/-- **Who a blocked `GetResource` / `Take` caller waits for** (every `Cfg`): the holder of the flight-group mutex — who is
+inside one of its short critical sections and can always take its next step —, the writer of the resource map (rows g7 /
+g8: one store, one unlock, always enabled), readers of the map (rows p1 p2 g1 g2 are always enabled:
+`rm_critical_section_enabled`; they are counted, not identified), or, in `Wait`, the leader of a flight *for the same
+key* that has not called `Done` yet.  Calls on other keys are never waited for. -/
+theorem rm_keys_independent_partial {s : RM.St} (h : RM.Reach s) (t : Tid) (x : Nat) (hb : RM.step s t x = none) :
+    (∃ u, s.lock = some u ∧ (s.pc u).holdsLock = true ∧ ∀ y, (RM.step s u y).isSome = true) ∨
+    (s.pc t = .w1 ∧ ∃ u, s.key u = s.key t ∧ (s.pc u).wgOne = true ∧ s.reg u = s.reg t) ∨
+    (∃ u, s.rw = some u ∧ (s.pc u = .g7 ∨ s.pc u = .g8) ∧ ∀ y, (RM.step s u y).isSome = true) ∨
+    (s.pc t = .g6 ∧ s.rw = none ∧ s.nrd ≠ 0) := by
+  have hi := RM.inv_reach h
+  have hl := RM.invL_reach h
+  rcases rm_blocked_cases hb with ⟨_, hlk⟩ | ⟨hp, hw⟩ | ⟨_, hrw⟩ | ⟨hp, hg⟩
+  · left
+    cases hlock : s.lock with
+    | none => exact absurd hlock hlk
+    | some u => exact ⟨u, rfl, hl.lockr u hlock, fun y => rm_critical_section_enabled s u y (.inl (hl.lockr u hlock))⟩
+  · right; left
+    refine ⟨hp, s.leader (s.reg t), ?_⟩
+    obtain ⟨a1, a2, a4⟩ := hi.waits t (by simp [hp, RM.PC.waits])
+    rcases a4 with hlr | ⟨hpub, hreg⟩
+    · exact absurd (hi.done _ a1 hlr).2 hw
+    · have hown := hi.owns (s.leader (s.reg t)) (by revert hpub; cases s.pc (s.leader (s.reg t)) <;> simp [RM.PC.pubd, RM.PC.owns])
+      have hk : s.key (s.leader (s.reg t)) = s.key t := by rw [← hown.2.2.1, hreg, a2]
+      refine ⟨hk, ?_, hreg⟩
+      have h0 := hi.wg0 (s.leader (s.reg t))
+      rw [hreg] at h0
+      revert hpub h0
+      cases s.pc (s.leader (s.reg t)) <;> simp [RM.PC.pubd, RM.PC.wgOne, RM.PC.after] <;> omega
+  · right; right; left
+    cases hrwv : s.rw with
+    | none => exact absurd hrwv hrw
+    | some u =>
+      have := hl.rwr u hrwv
+      exact ⟨u, rfl, this, fun y => rm_critical_section_enabled s u y (by rcases this with h1 | h1 <;> simp [h1])⟩
+  · cases hrwv : s.rw with
+    | some u =>
+      right; right; left
+      have := hl.rwr u hrwv
+      exact ⟨u, rfl, this, fun y => rm_critical_section_enabled s u y (by rcases this with h1 | h1 <;> simp [h1])⟩
+    | none =>
+      right; right; right
+      refine ⟨hp, rfl, ?_⟩
+      intro h0; exact hg ⟨hrwv, h0⟩
 
 /-- non-vacuity: goroutine 1 joined goroutine 0's flight on key 2 and is blocked in `Wait` while `create` runs. -/
 example : (RM.run (RM.init .getResource) (rmDemo.take 16)).map (fun s => (s.pc 1, (RM.step s 1 0).isSome, decide (s.key 1 = s.key 0)))
